@@ -10,6 +10,15 @@ impl log::Log for Capture {
         true
     }
     fn log(&self, record: &log::Record) {
+        // the harness's own TLS client lives in the same process: what it logs about the connection it opens
+        // (the server name it sends) is not the endpoint's log
+        if record.target().starts_with("rustls::client") {
+            return;
+        }
+        // what reaches the endpoint's log is what its own logger writes
+        if !log::Log::enabled(trusttunnel::log_utils::make_stdout_logger(), record.metadata()) {
+            return;
+        }
         if let Ok(mut g) = LINES.lock() {
             if let Some(v) = g.as_mut() {
                 v.push(format!("[{}] [{}] {}", record.level(), record.target(), record.args()));
